@@ -2,7 +2,7 @@
    True for the repaired variant; for the code as it exists the edge and migration metadata
    columns are erased (finding F7) and the migration check is too weak (finding F14). *)
 From Coq Require Import List ZArith Bool Lia Permutation Sorted ZifyBool.
-From TskVerif Require Import Base.Common Gen.Generated C11.Model C11.Spec C11.IntervalProofs C11.SitesProofs.
+From TskVerif Require Import Base.Common Gen.Generated C11.Model C11.Current C11.Spec C11.IntervalProofs C11.SitesProofs.
 Import ListNotations.
 Open Scope Z_scope.
 
